@@ -25,6 +25,17 @@ for line in out.splitlines():
     if cur and len(bad[cur])<6: bad[cur].append(line[:300])
 # a cell whose own code is fine but which imports a corpus file that is not usable cannot be linked either
 # (go build only names the root cause)
+# compile errors are reported per package directory: every corpus file of that package is unusable
+for (rt,pkg),errs in list(bad.items()):
+    for s in status:
+        if s['runtime']==rt and s.get('pkg',s['file'])==pkg and s['file']!=pkg:
+            bad[(rt,s['file'])]=errs
+# ... and a file that could not be generated takes the other files of its package with it (the package is linked as a whole)
+for s in status:
+    if s.get('error'):
+        for t in status:
+            if t['runtime']==s['runtime'] and t.get('pkg',t['file'])==s.get('pkg',s['file']) and t['file']!=s['file'] and not t.get('error'):
+                bad.setdefault((t['runtime'],t['file']),['another file of the same package ('+s['file']+') could not be generated'])
 broken=set(bad)|{(s['runtime'],s['file']) for s in status if s.get('error')}
 changed=True
 while changed:
